@@ -422,7 +422,10 @@ def stepL (c : SCfg) (s : SState) (l : Label) : SState :=
       let s := if s.endedUnconsumed > 0 then { s with endedUnconsumed := s.endedUnconsumed - 1 }
                else s.note .K "a finished scenario was consumed but none had ended"
       { s with slots := s.slots.onConsume }
-    else s
+    else
+      -- `run_scenarios` is never empty at the select (either the batch or what is already in flight), and
+      -- `forward_logs` never completes: `next()` cannot yield `None` here
+      s.note .K "run_scenarios.next() yielded None (the set of running scenarios cannot be empty at the select)"
   | .endA id failed retried t =>
     match s.running.find? (fun e => e.id == id) with
     | none => s.note .A s!"END of an attempt that is not running: {id}"
